@@ -5,12 +5,12 @@ from lib.common import Broken, Violation, verdict, save_replay
 
 PROPS = {
     "C37": {
-        "text": "SqlProxyAuth.tla models one client connection through the SQL proxy's handleConn: per query the 512-byte truncation, the per-connection decision cache keyed by the (truncated or full) text, authorizeQuery and the forward/refuse outcome; a query is abstracted to its statement shape and topic references placed before / across / after byte 512. TLC checks exhaustively (4 ACL configurations, cache on/off, sequences of <=3..4 queries out of 34 shapes) that every forwarded query reads only allowed topics. TLC-enumerated sequences (all single queries, all pairs in the thorough tier, simulated longer ones, counterexamples of the named wrong designs) are rendered to SQL text and sent through the REAL handleConn between a pgproto3 client and a fake upstream; TLC evaluates the property on what the upstream received (layer O) and checks each outcome against the model (layer C).",
-        "note": "Trusted: TLC, the rendering of abstract queries to SQL text (cross-checked in every run against the upstream server's own parser kafsql.Parse), net.Pipe as transport, ACLs with exact topic names (no glob patterns). Simple-query protocol only (the proxy refuses the extended protocol).",
+        "text": "SqlProxyAuth.tla models one client connection through the SQL proxy's handleConn: per query the 512-byte truncation, the per-connection decision cache keyed by the (truncated or full) text, authorizeQuery and the forward/refuse outcome; a query is abstracted to its statement shape and topic references placed before / across / after byte 512. TLC checks exhaustively (5 ACL configurations incl. wildcard allow + deny, cache on/off, sequences of <=2 (quick) / <=3 (thorough) queries out of 60 abstract statements) that every forwarded query reads only allowed topics. TLC-enumerated sequences (all single queries, all pairs in the thorough tier, simulated longer ones, counterexamples of the named wrong designs) are rendered to SQL text and sent through the REAL handleConn between a pgproto3 client and a fake upstream; TLC evaluates the property on what the upstream received (layer O) and checks each outcome against the model (layer C).",
+        "note": "Trusted: TLC, the rendering of abstract queries to SQL text (cross-checked in every run against the upstream server's own parser kafsql.Parse), net.Pipe as transport, ACLs with exact topic names and the wildcard \"*\" (no other glob patterns). Simple-query protocol only (the proxy refuses the extended protocol).",
         "technique": "TLA+ model (SqlProxyAuth.tla) + TLC exhaustive check + replay of TLC-enumerated query sequences through the real proxy connection handler + TLC trace validation (observation and conformance layers)",
     }
 }
-DEVIATIONS = {"FullText": "C37_ForwardedAuthorized", "CacheKeyTruncated": "C37_ForwardedAuthorized"}
+DEVIATIONS = {n: "C37_ForwardedAuthorized" for n in ("FullText", "CacheKeyTruncated", "KeyCut", "KeyCutHuge", "StarSkipsDeny")}
 PKG = "addons/processors/sql-processor"
 
 
@@ -57,22 +57,23 @@ def build_schedules(ctx, d):
         scheds.append({"acl": st["acl"], "cache": st["cacheOn"], "steps": st["hist"], "label": "dev:" + dev})
     ndev = len(scheds)
     singles = enumerate_all(ctx, d, "All_SqlProxyAuth_1.cfg")
+    # every ordered pair of wide statements (identical up to 1.5 / 6 / 80 KiB, topics only afterwards) on one connection, cache on
+    wide = [dict(s, label="widepair") for s in enumerate_all(ctx, d, "All_SqlProxyAuth_wide2.cfg")]
     pairs = enumerate_all(ctx, d, "All_SqlProxyAuth_2.cfg")
-    if quick:
-        rnd.shuffle(pairs)
-        pairs = pairs[:600]
+    rnd.shuffle(pairs)
+    pairs = pairs[:600] if quick else pairs[:10000]
     r = T.tlc(ctx, d, "MC_SqlProxyAuth.tla", "Sim_SqlProxyAuth.cfg", workers=1, simulate="num=%d" % (150 if quick else 1500), depth=8, seed=ctx.seed, deadlock_off=True, timeout=900)
     if r.violated:
         raise Broken("simulation reported a violation:\n" + r.out[-2000:])
     ps = r.prints.get("SCHED", [])
     sims = [dict(h, label="sim") for i, h in enumerate(ps) if h["steps"] and (i + 1 == len(ps) or len(ps[i + 1]["steps"]) <= len(h["steps"]))]
-    scheds += singles + pairs + sims
-    ctx.log("%d schedules (%d deviation counterexamples, %d single queries, %d pairs, %d simulated)" % (len(scheds), ndev, len(singles), len(pairs), len(sims)))
+    scheds += singles + wide + pairs + sims
+    ctx.log("%d schedules (%d deviation counterexamples, %d single queries, %d wide pairs, %d sampled pairs, %d simulated)" % (len(scheds), ndev, len(singles), len(wide), len(pairs), len(sims)))
     return scheds, ndev
 
 
 def sig_of(ev):
-    q = ev["shape"] + ("/" + ev["pos"] if ev["t2"] != "none" else "")
+    q = ev["shape"] + ("/" + ev["pos"] if ev["t2"] != "none" and ev["wide"] == "w0" else "") + ("/" + ev["wide"] if ev["wide"] != "w0" else "")
     return "C37_ForwardedAuthorized@%s" % q
 
 
@@ -111,13 +112,13 @@ def check(ctx, prop):
     if drift and not violations:
         level = "exploration"
         ctx.log("DRIFT: conformance layer rejected a trace although C37 held: " + json.dumps(conf["first_rejection"]))
-    nontrivial = len({json.dumps(s["steps"], sort_keys=True) + s["acl"] + str(s["cache"]) for s in scheds if any(q["pos"] != "near" for q in s["steps"])})
+    nontrivial = len({json.dumps(s["steps"], sort_keys=True) + s["acl"] + str(s["cache"]) for s in scheds if any(q["pos"] != "near" or q["wide"] != "w0" for q in s["steps"])})
     cov = {
         "states": mc.distinct, "transitions": mc.generated, "depth": mc.depth, "exhaustive": True, "model_config": "MC_SqlProxyAuth_%s.cfg" % ctx.tier,
         "traces_validated_against_impl": len(runs), "trace_events": len(rows), "queries_sent": sum(len(r) - 1 for r in runs),
         "queries_forwarded": sum(1 for r in rows if r["ev"] == "Query" and r["fwd"]),
         "evaluations": len(scheds), "distinct_nontrivial": nontrivial,
-        "rule": "schedules (one client connection each) = TLC counterexamples of the named deviations + every single query x ACL x cache mode + (quick: seeded sample of 600; thorough: all 9248) ordered pairs + TLC -simulate sequences of up to 6 queries; non-trivial = contains a query with a topic reference across or beyond byte 512",
+        "rule": "schedules (one client connection each) = TLC counterexamples of the named deviations + every single query x ACL x cache mode + every ordered pair of wide statements x ACL (cache on) + a seeded sample of ordered pairs (600 quick / 10000 thorough) + TLC -simulate sequences of up to 6 queries; non-trivial = contains a query with a topic reference across or beyond byte 512 or behind a wide projection",
         "deviation_schedules": sorted(DEVIATIONS), "conformance": ("drift" if drift else "accepted"), "conformance_detail": conf,
         "binding_self_test": st, "samples": [scheds[0], scheds[1], runs[0]],
     }
@@ -125,7 +126,7 @@ def check(ctx, prop):
         cov["action_coverage"] = {k: v[1] for k, v in mc.action_coverage().items()}
     return verdict(ctx, violations, level, cov, [
         "the topics a forwarded text reads are known by construction of the rendering and cross-checked against the server's parser (kafsql.Parse) for every query sent",
-        "ACL entries are exact topic names; the upstream is a fake that records the texts it receives",
+        "ACL entries are exact topic names or the wildcard *; the upstream is a fake that records the texts it receives",
         "one connection at a time (the decision cache is per connection)",
     ])
 
